@@ -100,10 +100,32 @@ type Sink struct {
 	Bytes   int
 	Capture bool
 	Chunks  [][]byte
+	hold    chan struct{}
+}
+
+// SetHold makes every Write block until the returned release function is called.
+func (s *Sink) SetHold() (release func()) {
+	ch := make(chan struct{})
+	s.mu.Lock()
+	s.hold = ch
+	s.mu.Unlock()
+	return func() {
+		s.mu.Lock()
+		if s.hold == ch {
+			s.hold = nil
+		}
+		s.mu.Unlock()
+		close(ch)
+	}
 }
 
 func (s *Sink) Write(p []byte) (int, error) {
 	s.mu.Lock()
+	if ch := s.hold; ch != nil {
+		s.mu.Unlock()
+		<-ch
+		s.mu.Lock()
+	}
 	s.N++
 	s.Bytes += len(p)
 	if s.Capture {
